@@ -113,7 +113,7 @@ func (self *FieldMask) print(buf *strings.Builder, indent int, desc *thrift_refl
 	} else if self.typ == FtList || self.typ == FtIntMap {
 		if self.All() {
 			printIndent(buf, indent+2, "*\n")
-			self.all.printElem(buf, indent+2, 0, desc.GetValueType())
+			self.printElem(buf, indent+2, 0, desc.GetValueType())
 			return
 		}
 		for k, v := range self.intMask {
